@@ -4,12 +4,27 @@ import (
 	"fmt"
 	"strings"
 
+	goerrors "github.com/ajitpratap0/GoSQLX/pkg/errors"
 	"github.com/ajitpratap0/GoSQLX/pkg/models"
 	"github.com/ajitpratap0/GoSQLX/pkg/sql/ast"
 )
 
 // parseMatchAgainst parses MySQL MATCH(...) AGAINST('text' [IN NATURAL LANGUAGE MODE | IN BOOLEAN MODE | WITH QUERY EXPANSION])
 func (p *Parser) parseMatchAgainst(matchFunc *ast.FunctionCall) (ast.Expression, error) {
+	// MATCH ... AGAINST (MATCH ... AGAINST (...)) nests through parsePrimaryExpression without
+	// passing parseExpression, so the recursion depth is checked here as well.
+	p.depth++
+	defer func() { p.depth-- }()
+
+	if p.depth > MaxRecursionDepth {
+		return nil, goerrors.RecursionDepthLimitError(
+			p.depth,
+			MaxRecursionDepth,
+			models.Location{Line: 0, Column: 0},
+			"",
+		)
+	}
+
 	p.advance() // Consume AGAINST
 	if !p.isType(models.TokenTypeLParen) {
 		return nil, p.expectedError("(")
